@@ -20,6 +20,7 @@
   timeout and gossip routines, and blocking event-switch hooks.
 -/
 import AnnVerif.Model.Ticker
+import AnnVerif.Lemmas.NodeProgress
 namespace AnnVerif.C12
 open AnnVerif.Ticker
 
@@ -98,5 +99,38 @@ theorem flattened_filter_drops_next_height :
     accept ⟨false⟩ ⟨1, 1, 7⟩ ⟨2, 0, 1⟩ = false ∧ accept {} ⟨1, 1, 7⟩ ⟨2, 0, 1⟩ = true := by decide
 
 example : later ⟨1, 1, 7⟩ ⟨2, 0, 1⟩ := Or.inl (by decide)
+
+/-! ### P1-P3: a node that has what a commit needs does commit (local progress)
+
+    No timeout is pending in the Commit step, so these transitions are what termination rests on
+    once +2/3 precommits for a block exist: for EVERY node state that satisfies the hypotheses. -/
+
+/-- P1: +2/3 precommits of some round for a block the node holds complete and valid: entering Commit
+    finalizes at once - from any earlier step, ANY current round (also a later one than the commit's),
+    unlocked or locked on that block -/
+theorem commit_when_block_is_there (n : Node.Node) (cr : Int) (bid : VoteSet.BlockID)
+    (hs : ¬ Node.Step.commit ≤ n.step) (hm : Node.maj23 (Node.precommits n cr) = some bid) (hne : bid.hash.isEmpty = false)
+    (hb : n.proposalBlock = some bid.hash) (hp : n.proposalParts = some bid.hash) (hc : n.partsComplete = true)
+    (hv : Node.isValid n bid.hash = true) (hl : n.lockedBlock = none ∨ n.lockedBlock = some bid.hash) :
+    Node.Emit.commit n.height bid.hash ∈ (Node.enterCommit n n.height cr).out ∧
+    (Node.enterCommit n n.height cr).height = n.height + 1 :=
+  Node.enterCommit_commits n cr bid hs hm hne hb hp hc hv hl
+
+/-- P2: a node that entered Commit without the block (it never saw the proposal): when the parts
+    arrive - from anybody, with or without a proposal - it finalizes -/
+theorem commit_when_parts_arrive (n : Node.Node) (bid : VoteSet.BlockID) (own : Bool)
+    (hs : n.step = .commit) (hm : Node.maj23 (Node.precommits n n.commitRound) = some bid) (hne : bid.hash.isEmpty = false)
+    (hp : n.proposalParts = some bid.hash) (hc : n.partsComplete = false) (hv : Node.isValid n bid.hash = true) :
+    Node.Emit.commit n.height bid.hash ∈ (Node.addParts n n.height bid.hash own).out ∧
+    (Node.addParts n n.height bid.hash own).height = n.height + 1 :=
+  Node.parts_in_commit_step_commit n bid own hs hm hne hp hc hv
+
+/-- P3: finalizing moves to the next height in step NewHeight, whose timeout the ticker always arms (K1) -/
+theorem finalize_opens_next_height (n : Node.Node) (bid : VoteSet.BlockID)
+    (hs : n.step = .commit) (hm : Node.maj23 (Node.precommits n n.commitRound) = some bid)
+    (hb : n.proposalBlock = some bid.hash) (hp : n.proposalParts = some bid.hash) (hc : n.partsComplete = true)
+    (hv : Node.isValid n bid.hash = true) :
+    (Node.finalizeCommit n n.height).height = n.height + 1 ∧ (Node.finalizeCommit n n.height).step = .newHeight :=
+  (Node.finalizeCommit_commits n bid hs hm hb hp hc hv).2
 
 end AnnVerif.C12
